@@ -272,7 +272,7 @@ func (f *frame) enterLoop(li *loopInfo, es []edge) (string, *State, error) {
 			if err != nil {
 				return "", nil, fmt.Errorf("%s: loop %d invariant %s: %v", c.Where, li.ordinal, c.Name, err)
 			}
-			f.addObl("inv-init", fmt.Sprintf("loop%d.%s", li.ordinal, c.Name), e.cond, g, c, b.Instrs[0].Pos(), nil)
+			f.addObl("inv-init", fmt.Sprintf("loop%d.%s", li.ordinal, c.Name), e.cond, g, c, b.Instrs[0].Pos(), invProps(f.fc, c))
 		}
 	}
 	// 2. havoc
@@ -371,8 +371,23 @@ func (f *frame) backEdge(li *loopInfo, from *ssa.BasicBlock, cond string, st *St
 		if err != nil {
 			return fmt.Errorf("%s: loop %d invariant %s: %v", c.Where, li.ordinal, c.Name, err)
 		}
-		f.addObl("inv-pres", fmt.Sprintf("loop%d.%s", li.ordinal, c.Name), cond, g, c, li.header.Instrs[0].Pos(), nil)
+		f.addObl("inv-pres", fmt.Sprintf("loop%d.%s", li.ordinal, c.Name), cond, g, c, li.header.Instrs[0].Pos(), invProps(f.fc, c))
 	}
 	return nil
 }
 
+
+
+// invProps: an invariant tagged with properties serves those in addition to the function's own.
+func invProps(fc *FuncContract, c *Clause) []string {
+	if fc == nil || len(c.Props) == 0 {
+		return nil
+	}
+	out := append([]string{}, fc.Props...)
+	for _, p := range c.Props {
+		if !hasProp(out, p) {
+			out = append(out, p)
+		}
+	}
+	return out
+}
